@@ -300,3 +300,97 @@ def run_f(prog, res, floor=4):
                             "the JSON writer copies the character %r into the string literal unescaped: the text it emits is "
                             "not the JSON encoding of the string (a quote ends the literal early)" % ch, unit=w.unit.display))
     return stat
+
+
+# ------------------------------------------------------------------ C19.h
+WIDTHS = {"short": 2, "unsigned short": 2, "int": 4, "unsigned int": 4, "float": 4, "long": 8, "unsigned long": 8,
+          "long long": 8, "unsigned long long": 8, "double": 8}
+
+
+def run_h(prog, res, floor=4):
+    """a multi-byte unit is loaded only where the whole unit is inside the buffer: in the hand-written helpers of the
+    bytevector libraries, a load `*(T*)(p + i)` of w = sizeof(T) > 1 bytes from a byte-pointer parameter p, whose index
+    i is bounded by a dominating comparison with a never-assigned parameter L of the same function (`i + k < L`,
+    `i + k <= L`), needs the slack of the whole unit: k >= w-1 for `<`, k >= w for `<=`.  `i < len` in front of a
+    4-byte load reads up to 3 bytes past a truncated UTF-32 / UTF-16 input and decodes them as a character."""
+    from cfg import dominators, elem_positions, enclosing_elem
+    stat = res.stat("C19.h", "multi-byte loads at a bounded index of a byte-pointer parameter: the dominating bound leaves room for the "
+                    "whole unit", floor=floor)
+    for u in prog.units:
+        if u.name not in ACCESSOR_UNITS:
+            continue
+        for fn in u.functions.values():
+            if not fn.blocks:
+                continue
+            assigned = set()
+            for nd in fn.nodes:
+                if nd["k"] == "bin" and nd["o"].endswith("=") and nd["o"] not in ("==", "!=", "<=", ">="):
+                    l = fn.strip(nd["c"][0])
+                    if fn.nodes[l]["k"] == "ref" and "d" in fn.nodes[l]:
+                        assigned.add(fn.nodes[l]["d"])
+                elif nd["k"] == "un" and nd.get("o") in ("post++", "post--", "pre++", "pre--", "&"):
+                    l = fn.strip(nd["c"][0])
+                    if fn.nodes[l]["k"] == "ref" and "d" in fn.nodes[l]:
+                        assigned.add(fn.nodes[l]["d"])
+            pos = dom = None
+            for i, nd in enumerate(fn.nodes):
+                if nd["k"] != "un" or nd.get("o") != "*" or not nd.get("c"):
+                    continue
+                c = nd["c"][0]
+                while fn.nodes[c]["k"] == "paren":
+                    c = fn.nodes[c]["c"][0]
+                if fn.nodes[c]["k"] != "cast":
+                    continue
+                w = WIDTHS.get((u.types[nd["t"]] or "").replace("const ", "").strip()) if nd.get("t") is not None else None
+                if not w or w < 2:
+                    continue
+                inner = fn.strip(fn.nodes[c]["c"][0])
+                ind = fn.nodes[inner]
+                if ind["k"] != "bin" or ind["o"] != "+":
+                    continue
+                a, b = fn.strip(ind["c"][0]), fn.strip(ind["c"][1])
+                if fn.nodes[a]["k"] != "ref" or fn.nodes[a].get("d") not in fn.params or fn.nodes[b]["k"] != "ref" or "d" not in fn.nodes[b]:
+                    continue
+                iv = fn.nodes[b]["d"]
+                if pos is None:
+                    pos, dom = elem_positions(fn), dominators(fn)
+                here = enclosing_elem(fn, i, pos)
+                if here is None:
+                    continue
+                bounds = []
+                for (atom, pol) in edge_dominating_atoms(fn, here, dom):
+                    an = fn.nodes[fn.strip(atom)]
+                    if an["k"] != "bin" or an["o"] not in ("<", "<=", ">", ">="):
+                        continue
+                    op = an["o"] if pol else {"<": ">=", "<=": ">", ">": "<=", ">=": "<"}[an["o"]]
+                    lhs, rhs = fn.strip(an["c"][0]), fn.strip(an["c"][1])
+                    if op in (">", ">="):
+                        lhs, rhs, op = rhs, lhs, {">": "<", ">=": "<="}[op]
+                    # lhs: i or i + k ; rhs: a never-assigned parameter
+                    k = None
+                    ln = fn.nodes[lhs]
+                    if ln["k"] == "ref" and ln.get("d") == iv:
+                        k = 0
+                    elif ln["k"] == "bin" and ln["o"] == "+":
+                        x, y = fn.strip(ln["c"][0]), fn.strip(ln["c"][1])
+                        if fn.nodes[x]["k"] == "ref" and fn.nodes[x].get("d") == iv and fn.const_val(y) is not None:
+                            k = fn.const_val(y)
+                    rn = fn.nodes[rhs]
+                    if k is None or rn["k"] != "ref" or rn.get("d") not in fn.params or rn.get("d") in assigned:
+                        continue
+                    bounds.append((op, k, atom))
+                if not bounds:
+                    continue
+                stat.sites += 1
+                stat.obligations += 1
+                if any((op == "<" and k >= w - 1) or (op == "<=" and k >= w) for (op, k, _a) in bounds):
+                    stat.discharged += 1
+                    stat.sample({"function": fn.name, "load": fn.txt(i)[:40], "width": w, "where": fn.where(i)}, limit=6)
+                else:
+                    op, k, atom = bounds[0]
+                    res.add(Finding("C19", "C19.h.unit-load-past-bound", fn.name, "%d-byte load at %s" % (w, fn.txt(inner)[:30]), fn.where(i),
+                                    "%s loads a %d-byte unit at `%s`, and the only bound on the index that dominates the load is `%s`: "
+                                    "with a buffer whose length is not a multiple of the unit the last load reads up to %d bytes past "
+                                    "its end and decodes them (a truncated UTF-16 / UTF-32 input yields a bogus extra character)"
+                                    % (fn.name, w, fn.txt(inner)[:30], fn.txt(atom)[:40], w - 1), unit=fn.unit.display))
+    return stat
